@@ -235,11 +235,12 @@ func VerifC35Send(p VerifC35SendParams) *VerifC35SendResult {
 // ---------------------------------------------------------------------------
 
 type VerifC35RecvParams struct {
-	Inbound bool
-	Packets []VerifC35Pkt // what the model sender sends, in order
-	Prefill int           // the first Prefill packets are sent (within the window) before any reader starts; the mux digests them, then the explorer's mark is set
-	Readers []VerifC35Reader
-	SendEOF bool
+	Inbound         bool
+	Packets         []VerifC35Pkt // what the model sender sends, in order
+	Prefill         int           // the first Prefill packets are sent (within the window) before any reader starts; the mux digests them, then the explorer's mark is set
+	Readers         []VerifC35Reader
+	SendEOF         bool
+	CloseWriteFirst bool // the application half-closes its own direction (CloseWrite) before it reads anything
 }
 
 type VerifC35Pkt struct {
@@ -298,6 +299,11 @@ func VerifC35Recv(p VerifC35RecvParams) *VerifC35RecvResult {
 			return res
 		}
 		ch = c
+	}
+	if p.CloseWriteFirst {
+		if err := ch.CloseWrite(); err != nil {
+			res.Complaints = append(res.Complaints, "CloseWrite: "+err.Error())
+		}
 	}
 	want := map[uint32]int{}
 	for _, k := range p.Packets {
